@@ -13,6 +13,7 @@ D5 ffi.new("struct *") stores the struct object in the pointer object and p[0] r
    with a new reference; the pointer's dealloc drops it.
 D6 allocator memory is wrapped by allocate_gcp_object(..., ca_free): goes through D1.
 """
+import re
 from ..cast import cx, rules
 from ..cast.cfg import cfg_of, stmt_text
 from ..cast.loader import backend_tu
@@ -158,7 +159,7 @@ def d3(run, tu):
             # the view pointer is read before the object is freed
             g = cfg_of(tu, fn)
             dn = [n.id for n in g.nodes if n.ast is not None and cx.calls_in(n.ast, 'cdata_dealloc')]
-            ld = [n.id for n in g.nodes if n.ast is not None and n.ast.get('kind') == 'DeclStmt' and 'bufferview' in stmt_text(n.ast)]
+            ld = [n.id for n in g.nodes if n.ast is not None and any(cx.lhs_text(l_) == 'view' and 'bufferview' in cx.render(r_) for l_, r_, _o, _x in cx.assignments(n.ast))]
             ok = ok and bool(dn) and bool(ld) and g.must_precede(dn[0], ld)
         run.ob('D3/view-released-by-%s' % fn.split('_')[1], fn, 'PyBuffer_Release(cd->bufferview)', ok and 'CDataFromBuf_Type' in slots.get(fn, []), tu.where(f))
     f = tu.func('cdatafrombuf_traverse')
@@ -248,10 +249,15 @@ def d7(run, tu):
         g = cfg_of(tu, fn)
         # locals that are single-assigned from the field stand for it
         alias = {field.replace(' ', '')}
-        for d_ in cx.walk(f):
-            if d_.get('kind') == 'VarDecl' and d_.get('init') and cx.kids(d_):
-                if cx.render(cx.strip(cx.kids(d_)[-1], casts=True)).replace(' ', '') in alias or cx.render(cx.kids(d_)[-1]).replace(' ', '') in alias:
-                    alias.add(d_['name'])
+        asg = {}
+        for l_, r_, o_, _x in cx.assignments(f):
+            asg.setdefault(cx.lhs_text(l_), []).append((r_, o_))
+        for _round in range(3):
+            for name_, defs_ in asg.items():
+                if len(defs_) == 1 and defs_[0][1] in ('init', '=') and re.match(r'^\w+$', name_ or ''):
+                    r_ = defs_[0][0]
+                    if cx.render(cx.strip(r_, casts=True)).replace(' ', '') in alias or cx.render(r_).replace(' ', '') in alias:
+                        alias.add(name_)
         visits = []
         for n in g.nodes:
             if n.ast is None:
